@@ -11,21 +11,29 @@
 (* the real tokens.create produces (LexerTrace.tla).                       *)
 (***************************************************************************)
 EXTENDS Naturals, Integers, Sequences, FiniteSets, SequencesExt, FiniteSetsExt
+CONSTANT PipeIsDelimiter     \* TRUE: the code; FALSE (mutant): '|' missing from lSingleCharacterSymbols, as before the repair
 
 \* ---- the alphabet: one representative per class of character the passes distinguish
 SP == 1  TAB == 2  LA == 3  LE == 4  LX == 5  D1 == 6  DOT == 7  DQ == 8  SQ == 9  BSL == 10
 MINUS == 11  STAR == 12  SLASH == 13  EQ == 14  LT == 15  GT == 16  QM == 17  LP == 18  SEMI == 19  COLON == 20
 UE == 21      \* "E"  (upper case exponent)
-Chars == 1..21
+PIPE == 22  COMMA == 23
+Chars == 1..23
 
 IsSpaceChar(c) == c \in {SP, TAB}
 IsDigitChar(c) == c = D1
 Lower(c) == IF c = UE THEN LE ELSE c
-\* lSingleCharacterSymbols restricted to the alphabet:  : ( ' " - * / < > ; = ?
-Singles == {COLON, LP, SQ, DQ, MINUS, STAR, SLASH, LT, GT, SEMI, EQ, QM}
+\* lSingleCharacterSymbols restricted to the alphabet:  : ( ' " - * / < > ; = ? | ,
+Singles == {COLON, LP, SQ, DQ, MINUS, STAR, SLASH, LT, GT, SEMI, EQ, QM, COMMA} \cup (IF PipeIsDelimiter THEN {PIPE} ELSE {})
 Three == {<<QM, SLASH, EQ>>, <<QM, LT, EQ>>, <<QM, GT, EQ>>}
 Two == {<<EQ, GT>>, <<STAR, STAR>>, <<COLON, EQ>>, <<SLASH, EQ>>, <<GT, EQ>>, <<LT, EQ>>, <<LT, GT>>, <<QM, QM>>, <<QM, EQ>>, <<QM, LT>>,
         <<QM, GT>>, <<LT, LT>>, <<GT, GT>>, <<MINUS, MINUS>>, <<SLASH, STAR>>, <<STAR, SLASH>>}
+
+\* ---- C05 at the lexical level: a VHDL delimiter always separates.  In a line without quotes and backslashes (where no
+\* literal or extended identifier can hide a delimiter) every final chunk of two or more characters is a blank run, a
+\* compound delimiter, or consists of word characters only - whether or not blanks surround the delimiter.
+WordChars == {LA, LE, LX, D1, DOT, UE}
+QuoteFree(s) == \A i \in 1..Len(s) : s[i] \notin {DQ, SQ, BSL}
 
 Flatten(cs) == FoldLeft(LAMBDA acc, c : acc \o c, <<>>, cs)
 IsSpaceStr(s) == s # <<>> /\ \A i \in 1..Len(s) : IsSpaceChar(s[i])          \* str.isspace()
@@ -124,6 +132,8 @@ P9(cs) == FoldLeft(LAMBDA acc, i : acc \o (IF IsBaseSpec(cs, i) THEN SplitBase(c
 
 Pass(k, cs) == CASE k = 1 -> P1(cs) [] k = 2 -> P2(cs) [] k = 3 -> P3(cs) [] k = 4 -> P4(cs) [] k = 5 -> P5(cs)
                  [] k = 6 -> P6(cs) [] k = 7 -> P7(cs) [] k = 8 -> P8(cs) [] k = 9 -> P9(cs)
+DelimsSeparate(cs) == \A i \in 1..Len(cs) : Len(cs[i]) >= 2 =>
+                          (IsSpaceStr(cs[i]) \/ cs[i] \in Two \cup Three \/ \A k \in 1..Len(cs[i]) : cs[i][k] \in WordChars)
 Chars0(s) == [i \in 1..Len(s) |-> <<s[i]>>]                                 \* convert_string_to_chars
 Create(s) == P9(P8(P7(P6(P5(P4(P3(P2(P1(Chars0(s))))))))))
 =============================================================================
